@@ -1,21 +1,18 @@
 (* e2e engine: the expectation for a REAL rotonda pipeline driven over TCP and
    observed over HTTP (harness/src/engines/e2e.rs). The pipeline model is the
-   `pipe` one: the case is handed to Eng_pipe.run_case (BGP ops, re-listen ops
-   and a connect of a router that is connected are left out, as the engine skips
+   `pipe` one: the case is handed to Eng_pipe.run_case (BGP ops, reload ops and
+   a connect of a router that is connected are left out, as the engine skips
    them) and its three-part output projected: `q:` and `m:` tokens are kept,
    every other token becomes `-` (the engine sees no internal updates).
    Added here, from E2e/E2eModel.v:
    - M prints a second token n:<connected routers>,<accepted>,<lost>
-     (E2eModel.uc_step; model = size of the metrics map, spec = live connections);
-   - the m: token of a router that came back continues from what its lost
-     sessions left behind (E2eModel.mx_code / mx_spec / mx_dumping_options).
-   Where model and spec differ for these reasons the class is KC (known finding
-   C15-4: state-machine metrics of a lost session are never dropped).
-   - `L` / `H` reload the configuration (with / without a new listen port). The
-     code drops every connection made after a reload (E2eModel.uc_dropped, known
-     finding C01-2): the model is the pipeline model of the case without those
-     connections, the spec the one with them; tokens that differ for that
-     reason have class KR. *)
+     (E2eModel.uc_step; model = size of the state-machine metrics map, spec =
+     accepted - lost). Where they differ the class is KC (known finding C15-4:
+     a connected router is not counted before its first message).
+   - `L` / `H` reload the configuration (with / without a new listen port): a
+     no-op for everything observed here - sessions, routes and counters are
+     kept, and routers that connect afterwards are served (they were not before
+     fix fde831a, finding C13-reload-drops). *)
 open Conv
 open BmpModel
 open PipeModel
@@ -25,30 +22,11 @@ let n = n_of_int
 
 type item =
   | Skip                    (* not part of the pipe case; prints - *)
-  | Pass                    (* one pipe op, one token *)
-  | Init of int             (* I k: as Pass, and the unit counters see it *)
+  | Pass                    (* one pipe op, one token; q: tokens are kept *)
+  | Msg of int              (* a BMP message of router k: as Pass (prints -), and the unit counters see it *)
   | Conn of int
-  | Dropped of int          (* C k after a reload: accepted and lost at once, no session *)
   | Metrics of int          (* M k: m-token and n-token *)
-  | Disc of int             (* X k of a connected router: preceded by an auxiliary M k in the pipe case *)
-
-let parse_m tok : metrics option =
-  if String.length tok < 2 || String.sub tok 0 2 <> "m:" then None
-  else match split_on ',' (String.sub tok 2 (String.length tok - 2)) with
-    | [_; a; b; c; d; e; f; g; h] ->
-        let i s = n (int_of_string s) in
-        Some { m_state = n 0; m_prefixes = i a; m_unknown_peer = i b; m_unprocessable = i c; m_ann = i d; m_wd = i e;
-               m_up = i f; m_eorcap = i g; m_dumping = i h }
-    | _ -> None
-
-let show_m (m : metrics) (dumping : string) =
-  Printf.sprintf "m:x,%d,%d,%d,%d,%d,%d,%d,%s" (int_of_n m.m_prefixes) (int_of_n m.m_unknown_peer) (int_of_n m.m_unprocessable)
-    (int_of_n m.m_ann) (int_of_n m.m_wd) (int_of_n m.m_up) (int_of_n m.m_eorcap) dumping
-
-let show_opts (l : BinNums.coq_N list) =
-  match Stdlib.List.sort_uniq compare (Stdlib.List.map int_of_n l) with
-  | [x] -> string_of_int x
-  | xs -> "<" ^ join "|" (Stdlib.List.map string_of_int xs) ^ ">"
+  | Disc of int             (* X k of a connected router *)
 
 let split3 (s : string) : string list * string list * string list =
   let rec go acc cur = function
@@ -59,14 +37,13 @@ let split3 (s : string) : string list * string list * string list =
   | [a; b; c] -> (a, b, c)
   | _ -> failwith ("unexpected pipe output: " ^ s)
 
-(* one reading of the case: [drops] = connections made after a reload are lost at once (what the code does).
-   Returns per output token (model, spec, class, after the first dropped connection?) *)
-let project ~(drops : bool) (line : string) : (string * string * string * bool) list =
+let starts p s = String.length s >= String.length p && String.sub s 0 (String.length p) = p
+
+let run_case (line : string) : string =
   let ops = Stdlib.List.map words (split_on ';' line) in
   let ops = Stdlib.List.filter (fun o -> o <> []) ops in
   (* pass 1: what the engine does with each op, and the case the pipeline model sees *)
   let live = ref [] in
-  let reloaded = ref false in
   let pipe_ops = ref [] in
   let push o = pipe_ops := o :: !pipe_ops in
   let items = Stdlib.List.map (fun toks ->
@@ -74,19 +51,15 @@ let project ~(drops : bool) (line : string) : (string * string * string * bool) 
       let self = join " " toks in
       match Stdlib.List.hd toks with
       | "O" | "A" | "Z" -> Skip
-      | "L" | "H" -> reloaded := true; Skip
+      | "L" | "H" -> Skip
       | "C" -> let k = i 1 in
-          if Stdlib.List.mem k !live then Skip
-          else if drops && !reloaded then Dropped k
-          else (live := k :: !live; push self; Conn k)
+          if Stdlib.List.mem k !live then Skip else (live := k :: !live; push self; Conn k)
       | "X" -> let k = i 1 in
-          if Stdlib.List.mem k !live then begin
-            live := Stdlib.List.filter (fun x -> x <> k) !live;
-            push (Printf.sprintf "M %d" k); push self; Disc k
-          end else Skip
+          if Stdlib.List.mem k !live then (live := Stdlib.List.filter (fun x -> x <> k) !live; push self; Disc k)
+          else Skip
       | "M" -> push self; Metrics (i 1)
-      | "I" -> push self; Init (i 1)
-      | "Q" | "T" | "S" | "U" | "D" | "R" | "E" | "B" -> push self; Pass
+      | "Q" -> push self; Pass
+      | "I" | "T" | "S" | "U" | "D" | "R" | "E" | "B" -> push self; Msg (i 1)
       | s -> failwith ("bad op " ^ s)) ops in
   let pipe_line = join ";" (Stdlib.List.rev !pipe_ops) in
   let (pm, ps, pc) = if pipe_line = "" then ([], [], []) else split3 (Eng_pipe.run_case pipe_line) in
@@ -97,50 +70,24 @@ let project ~(drops : bool) (line : string) : (string * string * string * bool) 
     | _ -> failwith "pipe output too short" in
   (* pass 2 *)
   let uc = ref uc_init in
-  let carry : (int * (metrics * BinNums.coq_N list)) list ref = ref [] in
-  let carry_of k = try Stdlib.List.assoc k !carry with Not_found -> (mx_zero, []) in
-  let res = ref [] and diverged = ref false in
-  let emit a b c = res := (a, b, c, !diverged) :: !res in
+  let res = ref [] in
+  let emit a b c = res := (a, b, c) :: !res in
   Stdlib.List.iter (fun it ->
       match it with
       | Skip -> emit "-" "-" "."
       | Pass ->
           let (a, b, c) = next () in
-          if String.length a >= 2 && String.sub a 0 2 = "q:" then emit a b c else emit "-" "-" "."
+          if starts "q:" a then emit a b c else emit "-" "-" "."
+      | Msg k -> ignore (next ()); uc := uc_step !uc (WMsg (n k, MInit)); emit "-" "-" "."
       | Conn k -> ignore (next ()); uc := uc_step !uc (WConnect (n k)); emit "-" "-" "."
-      | Dropped _ -> uc := uc_dropped !uc; diverged := true; emit "-" "-" "."
-      | Init k -> ignore (next ()); uc := uc_step !uc (WMsg (n k, MInit)); emit "-" "-" "."
-      | Disc k ->
-          let (a, _, _) = next () in
-          (match parse_m a with
-           | Some cur ->
-               let (c, stale) = carry_of k in
-               carry := (k, (mx_code c cur, mx_dumping_options stale cur.m_dumping)) :: Stdlib.List.remove_assoc k !carry
-           | None -> ());
-          ignore (next ());
-          uc := uc_step !uc (WDisconnect (n k));
-          emit "-" "-" "."
-      | Metrics k ->
-          let (a, _, _) = next () in
-          (match parse_m a with
-           | None -> emit "-" "-" "."
-           | Some cur ->
-               let (c, stale) = carry_of k in
-               let mt = show_m (mx_code c cur) (show_opts (mx_dumping_options stale cur.m_dumping)) in
-               let st = show_m (mx_spec c cur) (string_of_int (int_of_n cur.m_dumping)) in
-               emit mt st (if mt = st then "." else "KC"));
+      | Disc k -> ignore (next ()); uc := uc_step !uc (WDisconnect (n k)); emit "-" "-" "."
+      | Metrics _ ->
+          let (a, b, c) = next () in
+          if starts "m:" a then emit a b c else emit "-" "-" ".";
           let acc = int_of_n !uc.uc_accepted and lost = int_of_n !uc.uc_lost in
           let mt = Printf.sprintf "n:%d,%d,%d" (int_of_n (uc_connected_code !uc)) acc lost in
           let st = Printf.sprintf "n:%d,%d,%d" (int_of_n (uc_connected_spec !uc)) acc lost in
           emit mt st (if mt = st then "." else "KC")) items;
-  Stdlib.List.rev !res
-
-let run_case (line : string) : string =
-  let code = project ~drops:true line and ideal = project ~drops:false line in
-  let toks = Stdlib.List.map2 (fun (ma, sa, ca, after) (_, sb, _, _) ->
-      if not after then (ma, sa, ca)
-      else if ma = sb then (ma, sb, ".")
-      else if sa = sb then (ma, sb, ca)
-      else (ma, sb, "KR")) code ideal in
+  let toks = Stdlib.List.rev !res in
   let col f = join " " (Stdlib.List.map f toks) in
   col (fun (a, _, _) -> a) ^ " ||| " ^ col (fun (_, b, _) -> b) ^ " ||| " ^ col (fun (_, _, c) -> c)
